@@ -240,7 +240,19 @@ where
         for (class, info) in self.class_info.iter() {
             // Combine feature log probabilities and class priors to get log-likelihood for each class
             let jointi = info.prior.ln();
-            let nij = x.dot(&info.feature_log_prob);
+            let nij = if info.feature_log_prob.iter().all(|v| v.is_finite()) {
+                x.dot(&info.feature_log_prob)
+            } else {
+                // Without smoothing a feature which never occurs in a class has probability zero:
+                // it rules the class out for records containing the feature and does not
+                // contribute otherwise (instead of `0 * -inf = NaN`)
+                x.map_axis(Axis(1), |row| {
+                    row.iter()
+                        .zip(info.feature_log_prob.iter())
+                        .filter(|(count, _)| !count.is_zero())
+                        .fold(F::zero(), |acc, (&count, &log_prob)| acc + count * log_prob)
+                })
+            };
             joint_log_likelihood.insert(class, nij + jointi);
         }
 
